@@ -1883,3 +1883,80 @@ M('c17-recorded-not-consumed', 'C17', 'fire:W5',
                         self.recv_buffer = input[match.end(0):]''', 1))
 M('c17-twin-flag-renamed', 'C17', 'silent',
   (IOF, '''incomplete''', '''more_lines''', 4))
+
+# ---------------------------------------------------------------- C20
+ENVF = 'slimta/envelope/__init__.py'
+M('c20-payload-cut-at-start-of-match', 'C20', 'fire:E1',
+  (ENVF, '''            payload = data[match.end(0):]''',
+   '''            payload = data[match.start(0):]''', 1))
+M('c20-boundary-anchored-match', 'C20', 'fire:E1',
+  (ENVF, '''        match = re.search(_HEADER_BOUNDARY, data)''',
+   '''        match = re.match(_HEADER_BOUNDARY, data)''', 1))
+M('c20-no-boundary-all-body', 'C20', 'fire:E1',
+  (ENVF, '''            header_data = data
+            payload = b\'\'''',
+   '''            header_data = b\'\'
+            payload = data''', 1))
+M('c20-boundary-greedy', 'C20', 'fire:E6',
+  (ENVF, r'''_HEADER_BOUNDARY = re.compile(br'\r?\n\s*?\n')''',
+   r'''_HEADER_BOUNDARY = re.compile(br'\r?\n\s*\n')''', 1))
+M('c20-boundary-any-text', 'C20', 'fire:E6',
+  (ENVF, r'''_HEADER_BOUNDARY = re.compile(br'\r?\n\s*?\n')''',
+   r'''_HEADER_BOUNDARY = re.compile(br'\r?\n.*?\n')''', 1))
+M('c20-boundary-single-line-end', 'C20', 'fire:E6',
+  (ENVF, r'''_HEADER_BOUNDARY = re.compile(br'\r?\n\s*?\n')''',
+   r'''_HEADER_BOUNDARY = re.compile(br'\r?\n')''', 1))
+M('c20-twin-boundary-spelled-out', 'C20', 'silent',
+  (ENVF, r'''_HEADER_BOUNDARY = re.compile(br'\r?\n\s*?\n')''',
+   r'''_HEADER_BOUNDARY = re.compile(br'\r?\n[ \t\r\n\f\v]*?\n')''', 1))
+M('c20-payload-stripped', 'C20', 'fire:E2',
+  (ENVF, '''        else:
+            return payload
+
+    def prepend_header''',
+   '''        else:
+            return payload.lstrip(b'\\r\\n')
+
+    def prepend_header''', 1))
+M('c20-flatten-normalises-body', 'C20', 'fire:E2',
+  (ENVF, '''        return header_data, self.message
+
+    def _encode_parts''',
+   '''        return header_data, self.message.replace(b'\\r\\n', b'\\n')
+
+    def _encode_parts''', 1))
+M('c20-generator-other-policy', 'C20', 'fire:E3',
+  (ENVF, '''        BytesGenerator(outfp, policy=SMTP).flatten(msg, False)''',
+   '''        BytesGenerator(outfp).flatten(msg, False)''', 1))
+M('c20-shallow-copy', 'C20', 'fire:E4',
+  (ENVF, '''        new_env = copy.deepcopy(self)
+        if new_rcpts:''',
+   '''        new_env = copy.copy(self)
+        if new_rcpts:''', 1))
+M('c20-getstate-drops-client', 'C20', 'fire:E4',
+  (ENVF, '''    def _parse_data(self, data, *extra):''',
+   '''    def __getstate__(self):
+        state = dict(self.__dict__)
+        state.pop('client', None)
+        return state
+
+    def _parse_data(self, data, *extra):''', 1))
+M('c20-8bit-passed-on-without-encoder', 'C20', 'fire:E5',
+  (ENVF, '''            if not encoder:
+                raise
+            self._encode_parts(encoder)''',
+   '''            if encoder:
+                self._encode_parts(encoder)''', 1))
+M('c20-twin-encoder-is-none', 'C20', 'silent',
+  (ENVF, '''            if not encoder:
+                raise
+            self._encode_parts(encoder)''',
+   '''            if encoder is None:
+                raise
+            self._encode_parts(encoder)''', 1))
+M('c20-twin-cut-index-local', 'C20', 'silent',
+  (ENVF, '''            header_data = data[:match.end(0)]
+            payload = data[match.end(0):]''',
+   '''            cut = match.end(0)
+            header_data = data[:cut]
+            payload = data[cut:]''', 1))
